@@ -904,6 +904,14 @@ class Engine:
             if isinstance(op, ast.Div):
                 cx.raise_if(y == 0, "ZeroDivisionError")
                 return PyReal(_num(a, real=True) / _num(b, real=True))
+        if isinstance(a, PySet) and isinstance(b, PySet) and not inplace and isinstance(op, (ast.Sub, ast.BitOr, ast.BitAnd)):
+            # a - b / a | b / a & b of two sets: a NEW set, element-wise (wave 10, C02-20: `deps - self.targets` made the contract stale)
+            new = FreshConst(a.ty.sort(), "setop")
+            x = z3.Const("x!so", V)
+            ina, inb = z3.Select(a.arr, x), z3.Select(b.arr, x)
+            mem = z3.And(ina, z3.Not(inb)) if isinstance(op, ast.Sub) else (z3.Or(ina, inb) if isinstance(op, ast.BitOr) else z3.And(ina, inb))
+            cx.assume(z3.ForAll([x], z3.Select(new, x) == mem, patterns=[z3.Select(new, x)]))
+            return PySet(new)
         return self.binop_hook(op, a, b, cx, inplace, node)
 
     def binop_hook(self, op, a, b, cx, inplace, node):
